@@ -439,3 +439,15 @@ enum TestStatus {
     Failed,
     Received(Nonce),
 }
+
+/// Verification hook (add-only, `--cfg libp2p_verif`): the periodic probing step, run without
+/// waiting for the probe timer.
+#[cfg(libp2p_verif)]
+impl<R> Behaviour<R>
+where
+    R: rand::Rng + 'static,
+{
+    pub fn verif_tick(&mut self) {
+        self.issue_dial_requests_for_untested_candidates();
+    }
+}
